@@ -674,3 +674,275 @@ class TurtleWriter:
             lines.append(head + "{" + self.ws() + (self.ws(must=True)).join(inner) + self.ws(must=True) + "}")
         sep = lambda: c.choice(["\n", "\n", " ", "\n\n", "\r\n", "\n# c\n"])  # noqa: E731
         return "".join(x + sep() for x in lines)
+
+
+# ---------------------------------------------------------------- RDF/XML: document ASTs, their meaning, and a randomised writer
+# node ::= {"s": term|None, "type": iri|None, "lang": str|None, "props": [prop, ...]}
+# prop ::= ("lit", p, literal) | ("attr", p, plain_literal) | ("res", p, term) | ("node", p, node) | ("ptres", p, [prop, ...])
+#        | ("ptcoll", p, [node, ...]) | ("li", literal_or_term)          (p: predicate IRI string)
+def eval_rdfxml(nodes):
+    out = set()
+    counter = [0]
+
+    def fresh(pre):
+        counter[0] += 1
+        return ("b", "%s%d" % (pre, counter[0]))
+
+    def node(n):
+        s = n["s"] if n["s"] is not None else fresh("xanon")
+        if n.get("type"):
+            out.add((s, TYPE, ("u", n["type"])))
+        props(s, n["props"])
+        return s
+
+    def props(s, pl):
+        li = 0
+        for pr in pl:
+            k = pr[0]
+            if k in ("lit", "attr"):
+                out.add((s, ("u", pr[1]), pr[2]))
+            elif k == "res":
+                out.add((s, ("u", pr[1]), pr[2]))
+            elif k == "node":
+                out.add((s, ("u", pr[1]), node(pr[2])))
+            elif k == "ptres":
+                b = fresh("xres")
+                out.add((s, ("u", pr[1]), b))
+                props(b, pr[2])
+            elif k == "ptcoll":
+                items = [node(m) for m in pr[2]]
+                if not items:
+                    out.add((s, ("u", pr[1]), NIL))
+                else:
+                    cells = [fresh("xcell") for _ in items]
+                    out.add((s, ("u", pr[1]), cells[0]))
+                    for i, it in enumerate(items):
+                        out.add((cells[i], FIRST, it))
+                        out.add((cells[i], REST, cells[i + 1] if i + 1 < len(cells) else NIL))
+            elif k == "li":
+                li += 1
+                out.add((s, ("u", RDF + "_%d" % li), pr[1]))
+            else:
+                raise ValueError(pr)
+    for n in nodes:
+        node(n)
+    return out
+
+
+_NCNAME = re.compile(r"^[A-Za-z_À-ÖØ-öø-˿Ͱ-ͽͿ-῿][A-Za-z0-9_.\-·À-ÖØ-öø-˿̀-ͽͿ-῿]*$")
+
+
+def xml_split(iri):
+    """namespace / NCName local part, the longest local part that is an NCName"""
+    for i in range(len(iri)):
+        if _NCNAME.match(iri[i:]) and i > 0 and not _NCNAME.match(iri[i - 1:]):
+            return iri[:i], iri[i:]
+    return None
+
+
+class RDFXMLWriter:
+    def __init__(self, c):
+        self.c = c
+        self.ns = {RDF: "rdf"}  # namespace -> prefix, declared on the root
+        self.base = None
+
+    def esc(self, s, attr=False):
+        c = self.c
+        out = []
+        for i, ch in enumerate(s):
+            if ch == ">" and s[max(0, i - 2):i] == "]]":
+                out.append("&gt;")  # "]]>" may not appear in character data
+            elif ch == "&":
+                out.append(c.choice(["&amp;", "&#38;", "&#x26;"]))
+            elif ch == "<":
+                out.append(c.choice(["&lt;", "&#60;", "&#x3C;"]))
+            elif ch == ">":
+                out.append(c.choice(["&gt;", ">", "&#62;"]) if not attr else "&gt;")
+            elif ch == '"' and attr:
+                out.append(c.choice(["&quot;", "&#34;"]))
+            elif ch == "\r":
+                out.append("&#13;" if c.flag() else "&#xD;")
+            elif ch in "\t\n" and attr:
+                out.append("&#%d;" % ord(ch))
+            elif c.flag(12):
+                c.feat("char-reference")
+                out.append("&#x%X;" % ord(ch) if c.flag() else "&#%d;" % ord(ch))
+            else:
+                out.append(ch)
+        return "".join(out)
+
+    def text(self, s):
+        c = self.c
+        if s and "]]>" not in s and "\r" not in s and c.flag(5):
+            c.feat("CDATA")
+            return "<![CDATA[" + s + "]]>"
+        return self.esc(s)
+
+    def qname(self, iri, local_decls):
+        """-> qname; may add an xmlns declaration to local_decls"""
+        c = self.c
+        sp = xml_split(iri)
+        assert sp, iri
+        ns, local = sp
+        if ns in self.ns and not c.flag(8):
+            pfx = self.ns[ns]
+        else:
+            c.feat("local-xmlns")
+            free = [x for x in ["l1", "l2", "q", "rdf2", "_p", "l6", "l7", "l8"] if local_decls.get(x, ns) == ns]
+            pfx = c.choice(free)
+            local_decls[pfx] = ns
+        return (pfx + ":" + local) if pfx else local
+
+    def iri_attr(self, iri):
+        c = self.c
+        if self.base is not None and c.flag():
+            cands = [r for r in relative_candidates(self.base, iri)]
+            if cands:
+                label, ref = c.choice(cands)
+                c.feat("relative-iri:" + label)
+                return self.esc(ref, attr=True)
+        return self.esc(iri, attr=True)
+
+    def subject_attrs(self, s):
+        c = self.c
+        if s is None:
+            c.feat("anonymous-node")
+            return ""
+        if s[0] == "b":
+            c.feat("rdf:nodeID")
+            return ' rdf:nodeID="%s"' % s[1]
+        if self.base is not None and "#" in s[1]:
+            b, frag = s[1].rsplit("#", 1)
+            if b == self.base.split("#")[0] and _NCNAME.match(frag) and c.flag() and frag not in self.used_ids:
+                self.used_ids.add(frag)
+                c.feat("rdf:ID")
+                return ' rdf:ID="%s"' % frag
+        c.feat("rdf:about")
+        return ' rdf:about="%s"' % self.iri_attr(s[1])
+
+    def lit_elem(self, tag, lit, scope_lang, decls_txt):
+        lex, dt, lang = lit[1], lit[2], lit[3]
+        attrs = ""
+        if dt:
+            self.c.feat("rdf:datatype")
+            attrs += ' rdf:datatype="%s"' % self.esc(dt, attr=True)  # (always absolute: whether rdf:datatype takes part in base resolution is not tested here)
+        elif lang:
+            if scope_lang == lang and self.c.flag():
+                self.c.feat("xml:lang-inherited")
+            else:
+                attrs += ' xml:lang="%s"' % vary_case(lang, self.c)
+        elif scope_lang:
+            self.c.feat('xml:lang-reset')
+            attrs += ' xml:lang=""'
+        return "<%s%s%s>%s</%s>" % (tag, decls_txt, attrs, self.text(lex), tag)
+
+    def props(self, pl, lang, indent, allow_attrs, decls):
+        """-> (attribute text for property attributes, list of property elements)"""
+        c = self.c
+        attrs = ""
+        body = []
+        for pr in pl:
+            k = pr[0]
+            pd = {}
+            if k == "attr" and allow_attrs and not lang and c.flag(4) is False:
+                c.feat("property-attribute")
+                attrs += ' %s="%s"' % (self.qname(pr[1], decls), self.esc(pr[2][1], attr=True))
+                continue
+            if k == "li":
+                c.feat("rdf:li")
+                ptag = "rdf:li"
+            else:
+                ptag = self.qname(pr[1], pd)
+            dtxt = "".join(' xmlns:%s="%s"' % (p, self.esc(u, attr=True)) for p, u in pd.items())
+            if k in ("lit", "attr"):
+                body.append(self.lit_elem(ptag, pr[2], lang, dtxt))
+            elif k == "li":
+                v = pr[1]
+                if v[0] == "l":
+                    body.append(self.lit_elem(ptag, v, lang, dtxt))
+                elif v[0] == "u":
+                    body.append('<%s%s rdf:resource="%s"/>' % (ptag, dtxt, self.iri_attr(v[1])))
+                else:
+                    body.append('<%s%s rdf:nodeID="%s"/>' % (ptag, dtxt, v[1]))
+            elif k == "res":
+                v = pr[2]
+                if v[0] == "u":
+                    c.feat("rdf:resource")
+                    body.append('<%s%s rdf:resource="%s"%s' % (ptag, dtxt, self.iri_attr(v[1]), "/>" if c.flag() else "></%s>" % ptag))
+                else:
+                    body.append('<%s%s rdf:nodeID="%s"/>' % (ptag, dtxt, v[1]))
+            elif k == "node":
+                c.feat("nested-node")
+                body.append("<%s%s>%s%s%s</%s>" % (ptag, dtxt, self.gap(), self.node(pr[2], lang, indent + 1), self.gap(), ptag))
+            elif k == "ptres":
+                c.feat("parseType=Resource")
+                _, inner = self.props(pr[2], lang, indent + 1, False, {})
+                body.append('<%s%s rdf:parseType="Resource">%s%s</%s>' % (ptag, dtxt, "".join(self.gap() + b for b in inner), self.gap(), ptag))
+            elif k == "ptcoll":
+                c.feat("parseType=Collection")
+                body.append('<%s%s rdf:parseType="Collection">%s</%s>' % (ptag, dtxt, "".join(self.gap() + self.node(m, lang, indent + 1) for m in pr[2]) + self.gap(), ptag))
+        return attrs, body
+
+    def node(self, n, scope_lang, indent, root_attrs=""):
+        c = self.c
+        decls = {}
+        s = n["s"]
+        if n.get("type") and xml_split(n["type"]) and c.flag(3) is False:
+            c.feat("typed-node")
+            tag = self.qname(n["type"], decls)
+            extra_type = None
+        else:
+            tag = "rdf:Description"
+            extra_type = n.get("type")
+        attrs = self.subject_attrs(s)
+        lang = scope_lang
+        if n.get("lang"):
+            c.feat("xml:lang-on-node")
+            attrs += ' xml:lang="%s"' % n["lang"]
+            lang = n["lang"].lower()
+        body = []
+        if extra_type:
+            body.append('<rdf:type rdf:resource="%s"/>' % self.iri_attr(extra_type))
+        pattrs, pbody = self.props(n["props"], lang, indent, True, decls)
+        attrs += pattrs
+        body += pbody
+        dtxt = "".join(' xmlns:%s="%s"' % (p, self.esc(u, attr=True)) for p, u in decls.items())
+        if not body and c.flag():
+            return "<%s%s%s%s/>" % (tag, root_attrs, dtxt, attrs)
+        return "<%s%s%s%s>%s%s</%s>" % (tag, root_attrs, dtxt, attrs, "".join(self.gap() + b for b in body), self.gap(), tag)
+
+    def gap(self):
+        c = self.c
+        k = c.pick(8)
+        if k == 0:
+            c.feat("xml-comment")
+            return "\n<!-- a <comment> & -->\n"
+        if k == 1:
+            c.feat("processing-instruction")
+            return "<?pi data?>"
+        return c.choice(["\n  ", "", " ", "\n", "\t"])
+
+    def document(self, nodes, iris):
+        c = self.c
+        self.used_ids = set()
+        # namespaces for predicates / types, declared on the root
+        names = ["ex", "a", "ns1", "dc", "p-1", "é"]
+        for i in iris:
+            sp = xml_split(i)
+            if sp and sp[0] not in self.ns and names and c.flag(3) is False:
+                self.ns[sp[0]] = names.pop(0)
+        hier = [i for i in iris if re.match(r"^https?://[^#]*$", i)]
+        root_attrs = "".join(' xmlns:%s="%s"' % (p, self.esc(u, attr=True)) for u, p in self.ns.items())
+        if hier and c.flag():
+            self.base = c.choice(hier)
+            c.feat("xml:base")
+            root_attrs += ' xml:base="%s"' % self.esc(self.base, attr=True)
+        head = ""
+        if c.flag():
+            head = c.choice(['<?xml version="1.0"?>', '<?xml version="1.0" encoding="UTF-8"?>', "<?xml version='1.0' encoding='utf-8' standalone='yes'?>"]) + "\n"
+        if len(nodes) == 1 and c.flag(4):
+            # a single node element may be the document element
+            c.feat("no-rdf:RDF-root")
+            return head + self.node(nodes[0], None, 0, root_attrs=root_attrs)
+        body = "".join(self.gap() + self.node(n, None, 1) for n in nodes)
+        return head + "<rdf:RDF" + root_attrs + ">" + body + self.gap() + "</rdf:RDF>" + c.choice(["", "\n", "\n<!-- end -->"])
